@@ -176,8 +176,44 @@ def gen_cases(rng, n_grid, examples=True, slow=False):
     return cases
 
 
-def evaluate(chk: core.Check, cases):
-    results = geo.pmap(_run, [c[1] for c in cases], chk.scratch)
+def _run_seq(seq):
+    """several runs one after the other in ONE process (state carried between runs of a process must not matter)"""
+    return [_run(p) for p in seq]
+
+
+def near_rate_histories(rng):
+    """histories of runs in one process that differ only slightly in a rate (same lifetime): 7 % then 7.02 % then 7.04 %, bond rate 5 % then
+    5.1 % … — whatever a process remembers from an earlier run (a cached discount vector, a memoised factor) must not leak into the next"""
+    hs = []
+    for econ in (2, 3):
+        for eu, pl in ((1, 1), (2, 9), (31, 2)):
+            L = rng.choice([20, 30])
+            base = geo.base_params(econ, eu, pl, L=L, n=1)
+            if eu == 31:
+                base['CHP Bottoming Entering Temperature'] = 150
+            seq = []
+            for dr, bond, eq in ((0.07, 0.05, 0.1), (0.0702, 0.051, 0.1), (0.0704, 0.05, 0.1004), (0.07, 0.0502, 0.1), (0.0696, 0.05, 0.1)):
+                q = dict(base)
+                q.update({'Discount Rate': dr, 'Inflated Bond Interest Rate': bond, 'Inflated Equity Interest Rate': eq, 'Fraction of Investment in Bonds': 0.5})
+                seq.append(q)
+            hs.append((f'near-rates:{econ}/{eu}/{pl}/L{L}', seq))
+    return hs
+
+
+def evaluate_histories(chk: core.Check, hs):
+    out = geo.pmap(_run_seq, [h[1] for h in hs], chk.scratch)
+    cases, results = [], []
+    for (name, seq), rs in zip(hs, out):
+        for j, (p, r) in enumerate(zip(seq, rs)):
+            cases.append((f'{name}/run{j + 1}-of-one-process', p))
+            results.append(r)
+    chk.tag('history/near-rates', len(cases))
+    evaluate(chk, cases, results)
+
+
+def evaluate(chk: core.Check, cases, results=None):
+    if results is None:
+        results = geo.pmap(_run, [c[1] for c in cases], chk.scratch)
     lines, keep = [], {}
     for k, ((name, _), r) in enumerate(zip(cases, results)):
         if not r.get('ok'):
@@ -246,6 +282,7 @@ def run(chk: core.Check) -> int:
     clean = chk.prove(['GeoVerif.Properties.C01'])
     quick = chk.tier == 'quick'
     evaluate(chk, gen_cases(chk.rng, 400 if quick else 4000, examples=True, slow=not quick))
+    evaluate_histories(chk, near_rate_histories(chk.rng))
     if (not clean or chk.breaks) and not chk.failures:
         evaluate(chk, gen_cases(chk.rng, 1500, examples=False))
     chk.assumptions += ['documented formulas as stated in Properties/C01.lean header (code comments, manual parameter text; no PDF text tool offline)',
